@@ -86,6 +86,8 @@ type Interp struct {
 	cuts      []*State // paths cut inside inlined functions (loop state repeated)
 	// captured variables whose definition is being evaluated in their place (FreeVar), against cycles
 	resolvingFree map[*types.Var]bool
+	// named functions met as values ("func:<full name>" symbols), to resolve calls through variables holding them
+	funcSyms map[string]*types.Func
 }
 
 type State struct {
